@@ -3,7 +3,7 @@ S = 'kawin/precipitation/StoppingConditions.py'
 B = 'kawin/precipitation/KWNBase.py'
 T = 'kawin/precipitation/TimeTemperaturePrecipitation.py'
 ENTRIES = [
-    Entry('rebreak-F11', S, [('            return self._poll(model, model.pData.n) > self._value', '            return self._poll(model, model.n) > self._value')], 'R19.1'),
+    Entry('rebreak-F11', S, [('            n = model.pData.n\n', '            n = model.n\n')], 'R19.1'),
     Entry('rebreak-F11-time', S, [('                    self._satisfiedTime = model.pData.time[model.pData.n]', '                    self._satisfiedTime = model.time[model.pData.n]')], 'R19.1'),
     Entry('no-latch', S, [('        if not self._isSatisfied:\n            self._isSatisfied = self._testCondition(model)', '        if True:\n            self._isSatisfied = self._testCondition(model)')], 'R19.2'),
     Entry('time-written-always', S, [('            if self._isSatisfied:\n                if model.pData.n > 0:', '            if True:\n                if model.pData.n > 0:')], 'R19.2'),
@@ -15,10 +15,12 @@ ENTRIES = [
     Entry('radius-condition-wrong-history', S, [('class AverageRadiusCondition (PrecipitationStoppingCondition):\n    def __init__(self, condition, value, phase = None):\n        super().__init__(condition, value, phase = phase)\n\n    def _getData(self, model):\n        return model.pData.Ravg',
                                                 'class AverageRadiusCondition (PrecipitationStoppingCondition):\n    def __init__(self, condition, value, phase = None):\n        super().__init__(condition, value, phase = phase)\n\n    def _getData(self, model):\n        return model.pData.Rcrit')], 'R19.4'),
     Entry('composition-ignores-element', S, [('    def _poll(self, model, n):\n        e = 0 if self._element is None else model.elements.index(self._element)\n        return model.pData.composition[n,e]', '    def _getData(self, model):\n        return model.pData.composition')], 'R19.4'),
-    Entry('inequality-swapped', S, [('            return self._poll(model, model.pData.n) > self._value\n        else:\n            return self._poll(model, model.pData.n) < self._value', '            return self._poll(model, model.pData.n) < self._value\n        else:\n            return self._poll(model, model.pData.n) > self._value')], 'R19.4'),
+    Entry('inequality-swapped', S, [('            return self._poll(model, n) > self._value\n        else:\n            return self._poll(model, n) < self._value', '            return self._poll(model, n) < self._value\n        else:\n            return self._poll(model, n) > self._value')], 'R19.4'),
     Entry('solver-ignores-stop', 'kawin/solver/Solver.py', [('        while currTime < tf and not stop:', '        while currTime < tf:')], 'R19.5/R5.2'),
     Entry('ttp-no-reset', T, [('        self.model.reset()\n        self.model.setTemperature(T)', '        self.model.setTemperature(T)')], 'R19.6'),
     Entry('model-reset-keeps-conditions', B, [('        for sc in self._stoppingConditions:\n            sc.reset()\n', '')], 'R19.6'),
     Entry('benign-latch-early-return', S, [('        if not self._isSatisfied:\n            self._isSatisfied = self._testCondition(model)\n\n            if self._isSatisfied:', '        if self._isSatisfied:\n            return\n        if True:\n            self._isSatisfied = self._testCondition(model)\n\n            if self._isSatisfied:')], kind='benign'),
     Entry('benign-step-index-local', S, [('                if model.pData.n > 0:\n                    currVal, currTime = self._poll(model, model.pData.n), model.pData.time[model.pData.n]', '                if model.pData.n > 0:\n                    currVal, currTime = self._poll(model, model.pData.n), model.pData.time[-1 + model.pData.n + 1]')], kind='benign'),
+    Entry('rebreak-F28', S, [('                    if self._testCondition(model, model.pData.n-1):\n                        #Condition was already satisfied before this step (ex. at the initial state), so there is no crossing to interpolate\n                        self._satisfiedTime = prevTime\n                    else:\n                        self._satisfiedTime = (currTime - prevTime) * (self._value - prevVal) / (currVal - prevVal) + prevTime', '                    self._satisfiedTime = (currTime - prevTime) * (self._value - prevVal) / (currVal - prevVal) + prevTime')], 'R19.7'),
+    Entry('previous-step-guard-inverted', S, [('                    if self._testCondition(model, model.pData.n-1):\n', '                    if not self._testCondition(model, model.pData.n-1):\n')], 'R19.7'),
 ]
